@@ -85,6 +85,15 @@ CHECKS["C12"] = dict(
     note=E2NOTE,
 )
 
+CHECKS["C16"] = dict(
+    engine=E2, category="model_checking", design="§3 C16",
+    technique="symbolic execution of the real to_DiGraph on API-built programs whose mode/register numbers are z3 ints (constant-hash proxies fork set/dict lookups on equality); z3 decides reachability vs reference per path",
+    text="All mode and register numbers are solver variables; the real set/dict operations of to_DiGraph fork on equality, so exactly the feasible equality patterns are "
+         "explored; on each path z3 decides whether the concrete graph's reachability can differ from the reference relation (chains of successive sharing) for any wire "
+         "assignment consistent with the path; node set, attributes, edge direction and acyclicity asserted on every path. Bounded (n<=3/5 operations, <=6/8 wires).",
+    note=E2NOTE,
+)
+
 NOT_YET = "check not built yet in this round (see DESIGN.md §3 for the plan); not claimed"
 
 
